@@ -222,6 +222,12 @@ func (h *condRun) descOf(v any) (string, bool, any) {
 		return prim(&Node{T: "bool", Bv: tv})
 	case float64:
 		return prim(&Node{T: "float", Ty: 21, F: tv})
+	case float32:
+		return prim(&Node{T: "float", Ty: 20, F: float64(tv)})
+	case complex64:
+		return prim(&Node{T: "float", Ty: 22, F: float64(real(tv)), F2: float64(imag(tv))})
+	case complex128:
+		return prim(&Node{T: "float", Ty: 23, F: real(tv), F2: imag(tv)})
 	case strer:
 		return prim(&Node{T: "stringer", S: tv.s})
 	case plainStruct:
@@ -538,7 +544,7 @@ func (g *condGen) leaf() *Node {
 	case x < 62:
 		return &Node{T: "bool", Bv: g.r.Bool()}
 	case x < 70:
-		return &Node{T: "float", Ty: 21, F: []float64{1.5, 0, -2.25, 1e21, 3}[g.r.Intn(5)]}
+		return numLeaf(g.r)
 	case x < 85:
 		return &Node{T: "stringer", S: g.pick(append([]string{""}, condTextPool...))}
 	case x < 92:
